@@ -153,6 +153,65 @@ def specs(f):
     return None
 
 
+def iter_specs(f, cases):
+    """the overloads that take iterators of the string itself: specified through the index they stand for
+    ('in': position <name>.mIndex inside the text, 'end': the end marker) - the same std::string result as the
+    index overloads, an iterator at the end marker of a modifying position leaves the text unchanged (documented)"""
+    names = [p['name'] for p in f.params]
+    ks = []
+    for p in f.params:
+        base = btype(p['t'].rstrip('&').strip())
+        ks.append('it' if c10.ITER.match(base) else kind_of(p))
+    ks = tuple(ks)
+    n = sym('this.mLength')
+    old = lambda a, b: ('old', a, b)            # noqa: E731
+    same_text = [([], [old(lin(0), n)])]
+
+    def ix(name):
+        return sym('%s.mIndex' % name)
+    short = f.short
+    if short == 'insert' and ks in (('it', 'ch'), ('it', 'n', 'ch')):
+        if cases[names[0]] == 'end':
+            return same_text
+        i = ix(names[0])
+        cnt = lin(1) if ks == ('it', 'ch') else sym(names[1])
+        ch = sym(names[-1])
+        return [([], [old(lin(0), i), ('fill', ch, cnt), old(i, n - i)])]
+    if short == 'erase' and ks == ('it',):
+        if cases[names[0]] == 'end':
+            return same_text
+        i = ix(names[0])
+        return [([], [old(lin(0), i), old(i + 1, n - i - 1)])]
+    if short == 'erase' and ks == ('it', 'it'):
+        if cases[names[0]] == 'end':
+            return same_text
+        i = ix(names[0])
+        if cases[names[1]] == 'end':
+            return [([], [old(lin(0), i)])]
+        j = ix(names[1])
+        return [([], [old(lin(0), i), old(j, n - j)])]
+    if short == 'replace' and ks[:2] == ('it', 'it') and ks[2:] in (('cstr', 'n'), ('cstr',), ('n', 'ch')):
+        if cases[names[0]] == 'end' and ks[2:] == ('n', 'ch'):
+            return same_text
+        if cases[names[0]] == 'end':
+            return None         # first == end with a C string: position length(), outside the documented domain
+        i = ix(names[0])
+        k = (n - i) if cases[names[1]] == 'end' else (ix(names[1]) - i)
+        if ks[2:] == ('n', 'ch'):
+            cnt, ch = sym(names[2]), sym(names[3])
+            # count2 == 0 leaves the text unchanged as well
+            return [([ge(cnt, 1), ge(k, 1)], [old(lin(0), i), ('fill', ch, cnt), old(i + k, n - i - k)]),
+                    ([le(cnt, 0)], [old(lin(0), n)]), ([le(k, 0)], [old(lin(0), n)])]
+        r, ln = source(f.params[2])
+        if ks[2:] == ('cstr', 'n'):
+            cnt = sym(names[3])
+            return [([le(cnt, ln), ge(cnt, 1), ge(k, 1)], [old(lin(0), i), ('src', r, lin(0), cnt), old(i + k, n - i - k)]),
+                    ([le(cnt, 0)], [old(lin(0), n)]), ([le(k, 0)], [old(lin(0), n)])]
+        return [([ge(ln, 1), ge(k, 1)], [old(lin(0), i), ('src', r, lin(0), ln), old(i + k, n - i - k)]),
+                ([le(ln, 0)], [old(lin(0), n)]), ([le(k, 0)], [old(lin(0), n)])]
+    return None
+
+
 def piece_len(pc):
     return pc[2] if pc[0] in ('old', 'fill') else pc[3]
 
@@ -254,13 +313,39 @@ def r4_mutators(chk, prog, eng, L):
         if f.short in ('swap', 'sprintf', 'at', 'operator[]', 'front', 'back', 'data', 'begin', 'end', 'rbegin',
                        'rend', 'substr', 'copy'):
             continue
-        sp = specs(f)
-        if sp is None:
-            unspecified.append(c10.sig(f))
-            continue
-        n_spec += 1
-        for vi, (assume, pieces) in enumerate(sp):
-            tag = '%s, L=%d, case %d' % (c10.sig(f), L, vi + 1)
+        iters = [p['name'] for p in f.params if c10.ITER.match(btype(p['t'].rstrip('&').strip()))]
+        if iters:
+            import itertools
+            combos = []
+            for combo in itertools.product(('in', 'end'), repeat=len(iters)):
+                cases = dict(zip(iters, combo))
+                if cases.get('first') == 'end' and cases.get('last') == 'in':
+                    continue
+                combos.append(cases)
+            if not any(iter_specs(f, c_) for c_ in combos):
+                unspecified.append(c10.sig(f))
+                continue
+            n_spec += 1
+            variants = []
+            for cases in combos:
+                for vi, (assume, pieces) in enumerate(iter_specs(f, cases) or []):
+                    extra = []
+                    if cases.get('first') == 'in' and cases.get('last') == 'in':
+                        extra = [le(sym('first.mIndex'), sym('last.mIndex'))]
+                    variants.append((cases, assume + extra, pieces, '%s, case %d' % (
+                        ', '.join('%s %s' % (k_, 'at end' if v_ == 'end' else 'inside') for k_, v_ in cases.items()),
+                        vi + 1)))
+        else:
+            sp = specs(f)
+            if sp is None:
+                unspecified.append(c10.sig(f))
+                continue
+            n_spec += 1
+            variants = [({}, assume, pieces, 'case %d' % (vi + 1)) for vi, (assume, pieces) in enumerate(sp)]
+        for cases, assume, pieces, vtag in variants:
+            eng.iter_cases = cases
+            tag = '%s, L=%d, %s' % (c10.sig(f).replace(
+                'detail::FixedStringIterator<const char, const FixedString<%d>>' % L, 'const_iterator'), L, vtag)
             mark = len(eng.obligations)
             try:
                 if f.d.get('ctor'):
@@ -287,6 +372,7 @@ def r4_mutators(chk, prog, eng, L):
                 chk.notes.append('recursion limit in %s' % f.key)
                 continue
             finally:
+                eng.iter_cases = {}
                 del eng.obligations[mark:]        # bounds obligations belong to C10
             for s in finals:
                 if s.status not in ('normal', 'return'):
@@ -825,6 +911,11 @@ def run(chk):
         r4_sprintf(chk, prog, eng, L)
         chk.samples.append({'capacity': L, 'mutators_specified': n_spec, 'position_cases': n_cases,
                             'undecided_position_cases': und, 'unspecified': unspecified})
+        if und:
+            # every position case of every specified mutator is decided on the reference tree: a case that can no
+            # longer be resolved is not a pass
+            raise AnalysisBroken('%d position case(s) of the specified mutators can not be resolved any more (L=%d)'
+                                 % (und, L))
     chk.rule('R5', 'simple observers return what std::string returns (length, element access, substr, copy)', 24)
     chk.rule('R6', 'iteration: begin/rbegin positions, exact stepping, dereference at the position', 60)
     for L in grid[:1] if chk.tier == 'quick' else grid:
